@@ -62,13 +62,24 @@ func main() {
 	seed := fs.Int64("seed", 1, "PRNG seed")
 	mode := fs.String("mode", "random", "random|exhaustive")
 	tier := fs.String("tier", "quick", "quick|thorough")
+	shard := fs.String("shard", "", "i/N: execute only the generated inputs whose index is i modulo N")
 	fs.Parse(os.Args[3:])
 	out := bufio.NewWriterSize(os.Stdout, 1<<20)
 	defer out.Flush()
 	enc := json.NewEncoder(out)
 	switch os.Args[2] {
 	case "gen":
+		si, sn := 0, 1
+		if *shard != "" {
+			fmt.Sscanf(*shard, "%d/%d", &si, &sn)
+			if sn < 1 {
+				sn = 1
+			}
+		}
 		for i, in := range fam.Gen(*n, *seed, *mode, *tier) {
+			if i%sn != si {
+				continue
+			}
 			raw, err := json.Marshal(in)
 			if err != nil {
 				panic(err)
